@@ -66,7 +66,7 @@ theorem step_refines_nonunlock {c : CW} {s : WS} (hi : Inv c) (hb : Bounds c) (h
     · exact update_unlocked_refines info hi hb hr hl
   | lock => exact lock_refines info hi hr
   | unlock => cases hnu
-  | dep comp extra => exact dep_refines info hi hr comp extra hwf.1 hwf.2
+  | dep comp extra => exact dep_refines info hi hr comp extra hwf
   | valid e =>
     exact query_refines info hi hr _ _ _ rfl rfl rfl (valid_refines hi hb hr e)
   | has e comp =>
